@@ -44,10 +44,10 @@ Total(st) == LET RECURSIVE Sum(_) Sum(i) == IF i > Len(st) THEN 0 ELSE (IF st[i]
 MCProgs(st) ==
   { << Op("RM"), Op("RM"), Op("RM") >>,
     << Op("NR"), Op("RA"), Op("NR"), Op("RA"), Op("NR") >>,
-    << Op("NR"), Op("NR"), Op("RM") >> }
-  \cup (IF HasComp(st) THEN {} ELSE
-    { << Op("NR"), Rl(4096), Op("NR"), Rl(512), Op("NR") >>,
-      << Op("NR"), Rd(1), Op("NR"), Op("RA"), Op("NR") >>,
-      << Op("NR"), Rd(2), Rd(125), Op("RF"), Op("RM"), Op("RM") >> }
-    \cup (IF Total(st) <= 600 THEN {<< Op("NR"), Rl(1), Op("NR"), Rl(7), Op("NR") >>} ELSE {}))
+    << Op("NR"), Op("NR"), Op("RM") >>,
+    << Op("NR"), Rl(4096), Op("NR"), Rl(512), Op("NR") >>,
+    << Op("NR"), Rd(1), Op("NR"), Op("RA"), Op("NR") >>,
+    << Op("NR"), Rd(2), Rd(125), Op("RA"), Op("RM"), Op("RM") >> }
+  \cup (IF HasComp(st) THEN {} ELSE { << Op("NR"), Rd(2), Rd(125), Op("RF"), Op("RM"), Op("RM") >> })
+  \cup (IF Total(st) <= 600 THEN {<< Op("NR"), Rl(1), Op("NR"), Rl(7), Op("NR") >>} ELSE {})
 =============================================================================
